@@ -82,6 +82,7 @@ package trie
 //@   opt nil-receiver
 //@   opt group-hyps
 //@   opt path-hyps
+//@   opt functional-hints
 //@   lock t.mu : W
 //@   ghost-param repr map[*node]set[*node]
 //@   ghost-param S map[*node]set[K]
@@ -761,7 +762,7 @@ package trie
 //@   ghost-param wit map[*node]K
 //@   ghost-param dep map[*node]int
 //@   ghost-param vm map[K]V
-//@   requires trieInv(t, repr, S, term, wit, dep, vm)
+//@   requires[seq] trieInv(t, repr, S, term, wit, dep, vm)
 //@   ensures ok <==> (len(key) > 0 && t.root != nil && key in S[t.root])
 //@   ensures ok ==> v == vm[key]
 //@   ensures !ok ==> v == zero
@@ -776,7 +777,7 @@ package trie
 //@   ghost-param wit map[*node]K
 //@   ghost-param dep map[*node]int
 //@   ghost-param vm map[K]V
-//@   requires trieInv(t, repr, S, term, wit, dep, vm)
+//@   requires[seq] trieInv(t, repr, S, term, wit, dep, vm)
 //@   ensures result <==> (len(key) > 0 && t.root != nil && key in S[t.root])
 //@   call Get#1 ghost repr = repr; S = S; term = term; wit = wit; dep = dep; vm = vm
 
@@ -794,7 +795,8 @@ package trie
 //@   ghost nterm map[*node]K = term
 //@   ghost nwit map[*node]K = wit
 //@   ghost ndep map[*node]int = dep
-//@   requires len(key) > 0 && trieInv(t, repr, S, term, wit, dep, vm)
+//@   requires len(key) > 0
+//@   requires[seq] trieInv(t, repr, S, term, wit, dep, vm)
 //@   modifies t.root, t.n, all trie.node.left, all trie.node.mid, all trie.node.right, all trie.node.isValid, all trie.Item.val
 //@   ensures trieInv(t, nrepr, nS, nterm, nwit, ndep, store(vm, key, val)) && t.root != nil
 //@   ensures forall k K :: { k in nS[t.root] } k in nS[t.root] <==> ((old(t.root) != nil && k in S[old(t.root)]) || k == key)
@@ -814,7 +816,7 @@ package trie
 //@   ghost-param vm map[K]V
 //@   ghost gl int = 0
 //@   ghost lk K
-//@   requires trieInv(t, repr, S, term, wit, dep, vm)
+//@   requires[seq] trieInv(t, repr, S, term, wit, dep, vm)
 //@   ensures len(query) == 0 ==> result1 != nil && len(result0) == 0
 //@   ensures len(query) > 0 ==> result1 == nil && 0 <= gl && gl <= len(query) && len(result0) == gl && agree(result0, query, gl)
 //@   ensures len(query) > 0 && gl > 0 ==> t.root != nil && lk in S[t.root] && streq(result0, lk)
@@ -824,6 +826,7 @@ package trie
 //@   ghost lk = term[pre(x)] when length > pre(length)
 //@   invariant 0 <= i && i <= len(query) && 0 <= length && length <= i && gl == length
 //@   invariant x != nil ==> t.root != nil && x in repr[t.root] && dep[x] == i && agree(query, wit[x], i)
+//@   invariant x != nil ==> ssubset(S[x], S[t.root]) && tlocal(x, repr, S, term, wit, dep, vm)
 //@   invariant length > 0 ==> t.root != nil && lk in S[t.root] && len(lk) == length && agree(lk, query, length)
 //@   invariant forall k K :: { k in S[t.root] } t.root != nil && k in S[t.root] && isprefix(k, query) && len(k) > length ==> x != nil && k in S[x]
 
@@ -906,7 +909,7 @@ package trie
 //@   ghost-param dep map[*node]int
 //@   ghost-param vm map[K]V
 //@   ghost qpos map[K]int
-//@   requires trieInv(t, repr, S, term, wit, dep, vm)
+//@   requires[seq] trieInv(t, repr, S, term, wit, dep, vm)
 //@   modifies qn(t.q), qe(t.q)
 //@   ensures result0 == t.q && result1 == nil && qsorted(t.q)
 //@   ensures t.root == nil ==> qn(t.q) == 0
@@ -924,7 +927,7 @@ package trie
 //@   ghost-param dep map[*node]int
 //@   ghost-param vm map[K]V
 //@   ghost qpos map[K]int
-//@   requires trieInv(t, repr, S, term, wit, dep, vm)
+//@   requires[seq] trieInv(t, repr, S, term, wit, dep, vm)
 //@   modifies qn(t.q), qe(t.q)
 //@   ghost-at collect#1: qpos = lambda k K :: (x.isValid && k == prefix ? 0 : qpos[k])
 //@   ensures result0 == t.q && qsorted(t.q)
